@@ -130,8 +130,9 @@ func Append(ctx context.Context, basen ipld.Node, db *h.DagBuilderHelper) (out i
 		return nil, err
 	}
 
-	// after appendFillLastChild, our depth is now increased by one
-	if !db.Done() {
+	// appendFillLastChild completed a partially filled layer (if any); a
+	// layer that had not been started (repeatNumber == 0) is still to be added
+	if repeatNumber != 0 && !db.Done() {
 		depth++
 	}
 
@@ -227,8 +228,9 @@ func appendRec(ctx context.Context, fsn *h.FSNodeOverDag, db *h.DagBuilderHelper
 		return nil, 0, err
 	}
 
-	// after appendFillLastChild, our depth is now increased by one
-	if !db.Done() {
+	// appendFillLastChild completed a partially filled layer (if any); a
+	// layer that had not been started (repeatNumber == 0) is still to be added
+	if repeatNumber != 0 && !db.Done() {
 		depth++
 	}
 
